@@ -49,6 +49,29 @@ func (s Script) alwaysReady() bool {
 	return true
 }
 
+// steadyConsumer : every write is immediate and the consumer pauses the same d > 0 before every
+// receive with Q*d <= I.
+func (s Script) steadyConsumer() (int64, bool) {
+	if len(s.Cons) == 0 {
+		return 0, false
+	}
+	d := s.Cons[0]
+	for _, c := range s.Cons {
+		if c != d {
+			return 0, false
+		}
+	}
+	for _, g := range s.Gaps {
+		if g != 0 {
+			return 0, false
+		}
+	}
+	if d <= 0 || mulSat(s.Q, uint64(d)) > uint64(s.I) {
+		return 0, false
+	}
+	return d, true
+}
+
 // Execute runs the script against the real limit discipline inside a bubble.
 func execute1(t *testing.T, s Script, leakScan bool, budget time.Duration) Trace {
 	n := len(s.Gaps)
@@ -173,6 +196,18 @@ func CheckC12(s Script, tr Trace) error {
 	}
 	if tr.ClosedAt < 0 {
 		return fmt.Errorf("output not closed")
+	}
+	if d, ok := s.steadyConsumer(); ok {
+		// Everything is available up-front and the consumer, taking one element every d with
+		// Q*d <= I, is faster than the limit: a batch never lasts longer than the interval, batch k
+		// starts at k*I and the consumer has finished the previous one by then.
+		within := addSat(mulSat(min(s.Q, uint64(n))+1, uint64(d)), 0)
+		for i := range tr.Recv {
+			lim := addSat(mulSat(uint64(i)/s.Q, uint64(s.I)), within)
+			if uint64(tr.Recv[i]) > lim {
+				return fmt.Errorf("extra throttling: all data up-front, consumer takes one element per %dns (Q*d <= I), element %d delivered at %d, later than floor(i/Q)*I + (min(Q,N)+1)*d = %d", d, i, tr.Recv[i], lim)
+			}
+		}
 	}
 	if !s.alwaysReady() {
 		return nil
@@ -323,6 +358,20 @@ func Gen(thorough bool) *rapid.Generator[Script] {
 			k := rapid.IntRange(1, 4).Draw(t, "nc")
 			for j := 0; j < k; j++ {
 				s.Cons = append(s.Cons, rapid.SampledFrom([]int64{0, 0, iv / 3, iv, 2*iv + 1, 5 * iv}).Draw(t, "cd"))
+			}
+		}
+		if s.Q <= 1000 && rapid.IntRange(0, 7).Draw(t, "steady") == 0 {
+			// everything up-front, several batches, a consumer that needs a fixed time per element
+			// and is still faster than the limit (output back-pressure inside a batch)
+			k := rapid.SampledFrom([]int64{1, 1, 2, 3, 10}).Draw(t, "steadyk")
+			if d := s.I / (int64(s.Q) * k); d >= 1 {
+				s.Cons = []int64{d}
+				nb := rapid.IntRange(2, 8).Draw(t, "steadybatches")
+				n := int(s.Q)*nb + rapid.IntRange(0, int(s.Q)-1).Draw(t, "steadyrest")
+				if n > 400 {
+					n = 400
+				}
+				s.Gaps = make([]int64, n)
 			}
 		}
 		return s
